@@ -111,7 +111,7 @@ func init() {
 	Register("C02", &Info{
 		Run:   runC02,
 		Quick: 12000, Thor: 600000,
-		Rule: "a world = one fingerprint (every predefined parrot by stratum, randomized seeds, HelloGolang, generated custom specs, fingerprinted copies of a parrot's own wire hello under each Fingerprinter flag combination) x Config shape (ServerName: empty/IPv4/IPv6/bracketed/trailing dots/1-253 chars/over-long; NextProtos; OmitEmptyPsk; optional cached TLS1.2/1.3 session from a first connection; Config.Rand failing at its n-th read) against a real server; every ClientHello reassembled from the wire tap (first hello, hello after HelloRetryRequest, resumption hello) is parsed by the strict independent grammar; non-trivial = a ClientHello reached the wire or the library returned an error; distinct = (fingerprint, config shape, hello length)",
+		Rule: "a world = one fingerprint (every predefined parrot by stratum, randomized seeds, HelloGolang, generated custom specs, fingerprinted copies of a parrot's own wire hello under each Fingerprinter flag combination) x Config shape (ServerName: empty/IPv4/IPv6/bracketed/trailing dots/1-253 chars/over-long; NextProtos; OmitEmptyPsk; optional cached TLS1.2/1.3 session from a first connection (also with a cookie-bearing HelloRetryRequest that selects a suite of the other hash, so the offered PSK becomes unusable); Config.Rand failing at its n-th read) against a real server; every ClientHello reassembled from the wire tap (first hello, hello after HelloRetryRequest, resumption hello) is parsed by the strict independent grammar; non-trivial = a ClientHello reached the wire or the library returned an error; distinct = (fingerprint, config shape, hello length)",
 		Assumptions: []string{"the grammar in sim/wire is my reading of RFC 8446/6066/7301/7685/8879/9001, the ECH and ALPS drafts; it was validated against every parrot and by mutation tests, and cross-checked by the standard-library server's parser",
 			"no schedule is involved in this property: the simulator contributes ownership of both random sources (replayable draws) and the wire tap of real connections (DESIGN 0)"},
 		Real: []string{"utls client from /repo", "utls or Go std crypto/tls server"},
@@ -221,6 +221,7 @@ func runC02(c *Ctx) {
 	// a third of the HelloRetryRequest worlds use the reference server, whose
 	// HelloRetryRequest carries a cookie that the second ClientHello has to echo
 	rcfg := refCfg()
+	otherHash := ch.Bool(50, "other-hash")
 	if forceHRR && ch.Bool(35, "hrr-cookie") {
 		peer = PeerRef
 		ck := make([]byte, []int{1, 16, 300}[ch.Pick(3, "cookie-len")])
@@ -243,6 +244,12 @@ func runC02(c *Ctx) {
 			rs = simrand.NewStream(ch.U64("cfg-rand"))
 			rs.FailAt = randFail
 			cfg.Rand = rs
+		}
+		if i == nconn-1 && history && peer == PeerRef && otherHash {
+			// the resumption hello meets a HelloRetryRequest (with cookie) that selects a suite of the
+			// other hash: the offered PSK can no longer be used, yet pre_shared_key stays last
+			rcfg.Byz.ForceSuite = 0x1302
+			c.Probe("resumption-hrr-cookie-other-hash")
 		}
 		sp := &ConnSpec{Name: fmt.Sprintf("c%d", i), ID: idi.ID, Spec: freshSpec(newSpec), CCfg: cfg, Peer: peer, SCfg: scfg, StdCfg: stdcfg, RefCfg: rcfg,
 			Payload: [][]byte{[]byte("ping")}, Setup: func(l *simnet.Link) { l.Frag = frag }}
